@@ -58,6 +58,7 @@ type xty struct {
 	elem    *xty
 	key     *xty
 	name    string
+	poly    bool // struct with the type parameter α
 	params  []*xty
 	results []*xty // kErr last when the function can fail
 	oracle  bool
@@ -105,6 +106,24 @@ func sameTy(a, b *xty) bool {
 		}
 	}
 	return true
+}
+
+func (t *xty) mentionsAny() bool {
+	if t == nil {
+		return false
+	}
+	if t.k == kAny || t.k == kStruct && t.poly {
+		return true
+	}
+	if t.elem.mentionsAny() || t.key.mentionsAny() {
+		return true
+	}
+	for _, p := range append(append([]*xty{}, t.params...), t.results...) {
+		if p.mentionsAny() {
+			return true
+		}
+	}
+	return false
 }
 
 func parenT(s string) string {
@@ -156,7 +175,7 @@ func (t *xty) lean() string {
 	case kByte:
 		return "Byte"
 	case kAny:
-		return "Go.Any"
+		return "Go.Any α"
 	case kList:
 		if t.elem.k == kByte {
 			return "Bytes"
@@ -172,6 +191,9 @@ func (t *xty) lean() string {
 		}
 		return "List (" + k + " × " + v + ")"
 	case kStruct:
+		if t.poly {
+			return t.name + " α"
+		}
 		return t.name
 	case kFunc:
 		var ps []string
@@ -207,6 +229,7 @@ type xfield struct {
 type xstruct struct {
 	name   string
 	fields []xfield
+	poly   bool // a field mentions `any`: the structure has the type parameter α
 }
 
 func (s *xstruct) field(n string) *xty {
@@ -225,11 +248,35 @@ type xval struct {
 }
 
 // control context of the statement being translated
+type xmode int
+
+const (
+	mNone  xmode = iota // a branch of a data-flow `if`, the body of a fold: no exits
+	mPlain              // top of a function / closure without `for` loops: the result itself
+	mOut                // top of a function with `for` loops: Go.Out ρ
+	mCtl                // inside the definition of a fuelled loop: Go.Ctl σ ρ
+	mBrk                // inside the definition of a range loop with exits: Go.Brk σ ρ
+)
+
 type xctx struct {
-	ret  func(v string) string // rendering of `return v`; nil: return is not allowed here
-	brk  func() string         // nil: not allowed
+	mode xmode
+	brk  func() string // nil: not allowed
 	cont func() string
-	then string // "andThen" inside a loop definition, "finish" at the top of a function with exits, "" elsewhere
+}
+
+// rendering of `return v` in the current context ("" = not allowed)
+func (c xctx) ret(v string) string {
+	switch c.mode {
+	case mPlain:
+		return v
+	case mOut:
+		return "Go.Out.ret " + paren(v)
+	case mCtl:
+		return "Go.Ctl.ret " + paren(v)
+	case mBrk:
+		return "Go.Brk.ret " + paren(v)
+	}
+	return ""
 }
 
 type xtr struct {
@@ -254,6 +301,9 @@ type xtr struct {
 	ptrParams      map[string]bool        // parameters of pointer type (their fields may not be assigned)
 	params         map[string]bool        // parameters (their elements may not be assigned)
 	prims          map[string]bool        // library functions kept abstract (spec.Prims)
+	aliases        map[string]*xty        // named non-struct types of the spec
+	known          map[string]*xty        // functions of the same module translated earlier (callable)
+	poly           bool                   // the function mentions `any`: it gets the type parameter α
 }
 
 func (x *xtr) pos(n ast.Node) token.Position {
@@ -341,8 +391,11 @@ func (x *xtr) goTy(e ast.Expr) *xty {
 		case "any":
 			return tAny
 		}
-		if _, ok := x.structs[t.Name]; ok {
-			return &xty{k: kStruct, name: t.Name}
+		if st, ok := x.structs[t.Name]; ok {
+			return &xty{k: kStruct, name: t.Name, poly: st.poly}
+		}
+		if a, ok := x.aliases[t.Name]; ok {
+			return a
 		}
 	case *ast.InterfaceType:
 		if t.Methods == nil || len(t.Methods.List) == 0 {
@@ -358,8 +411,8 @@ func (x *xtr) goTy(e ast.Expr) *xty {
 		return &xty{k: kMap, key: k, elem: x.goTy(t.Value)}
 	case *ast.StarExpr:
 		if id, ok := t.X.(*ast.Ident); ok {
-			if _, ok := x.structs[id.Name]; ok {
-				return &xty{k: kStruct, name: id.Name}
+			if st, ok := x.structs[id.Name]; ok {
+				return &xty{k: kStruct, name: id.Name, poly: st.poly}
 			}
 		}
 	case *ast.SelectorExpr:
@@ -367,8 +420,11 @@ func (x *xtr) goTy(e ast.Expr) *xty {
 			if id.Name == "uuid" && t.Sel.Name == "UUID" {
 				return listOf(tBytex)
 			}
-			if _, ok := x.structs[t.Sel.Name]; ok { // pkg.Struct named in the spec
-				return &xty{k: kStruct, name: t.Sel.Name}
+			if st, ok := x.structs[t.Sel.Name]; ok { // pkg.Struct named in the spec
+				return &xty{k: kStruct, name: t.Sel.Name, poly: st.poly}
+			}
+			if a, ok := x.aliases[t.Sel.Name]; ok {
+				return a
 			}
 		}
 	case *ast.FuncType:
@@ -446,15 +502,21 @@ func (x *xtr) zero(n ast.Node, t *xty) string {
 
 func (x *xtr) structText(s *xstruct) genFunc {
 	var b strings.Builder
-	fmt.Fprintf(&b, "structure %s where\n", s.name)
+	hd, ty, impl := s.name, s.name, ""
+	if s.poly {
+		hd, ty, impl = s.name+" (α : Type)", s.name+" α", " {α : Type}"
+	}
+	fmt.Fprintf(&b, "structure %s where\n", hd)
 	var zs []string
 	for _, f := range s.fields {
 		fmt.Fprintf(&b, "  %s : %s\n", ident(f.name), f.ty.lean())
 		zs = append(zs, x.zero(nil, f.ty))
 	}
-	b.WriteString("  deriving DecidableEq, Repr\n")
-	fmt.Fprintf(&b, "/-- the zero value of `%s` -/\ndef %s.zero : %s := ⟨%s⟩\n", s.name, s.name, s.name, strings.Join(zs, ", "))
-	fmt.Fprintf(&b, "instance : Inhabited %s := ⟨%s.zero⟩\n", s.name, s.name)
+	if !s.poly {
+		b.WriteString("  deriving DecidableEq, Repr\n")
+	}
+	fmt.Fprintf(&b, "/-- the zero value of `%s` -/\ndef %s.zero%s : %s := ⟨%s⟩\n", s.name, s.name, impl, ty, strings.Join(zs, ", "))
+	fmt.Fprintf(&b, "instance%s : Inhabited %s := ⟨%s.zero⟩\n", impl, parenT(ty), s.name)
 	return genFunc{name: "structure " + s.name, text: b.String()}
 }
 
